@@ -9,6 +9,6 @@ if [ ! -d "$wt" ]; then git -C /repo worktree add -q --detach "$wt" HEAD || exit
 git -C "$wt" checkout -q --detach "$(git -C /repo rev-parse HEAD)" 2>/dev/null; git -C "$wt" checkout -- . ; git -C "$wt" clean -fdq
 git -C "$wt" apply "$patch" || { echo "patch does not apply"; exit 2; }
 out=/tmp/try_patch_ev_$$; mkdir -p $out/evidence; cp known_findings.json $out/
-${IPCHECK:-bin/ipcheck} -property "$props" -repo "$wt" -verif $out | grep -E 'VIOLAT|UNDECIDED|KNOWN|quick:' | cut -c1-300
+${IPCHECK:-bin/ipcheck} -property "$props" -repo "$wt" -verif $out | grep -E 'VIOLAT|UNDECIDED|KNOWN|quick:' | cut -c1-300 | iconv -c -f utf-8 -t utf-8
 rm -rf $out
 git -C "$wt" checkout -- . ; git -C "$wt" clean -fdq
